@@ -131,6 +131,26 @@ def readouts(ctx, c, x, model, sig, what, full=True):
         ok, detail = False, repr(e)
     ctx.judge('readout', ok, dict(sig, kind='iteration_wrong', op='iter'),
               lambda: '%s: iteration yields %s, the model holds %s' % (what(), core.short(detail, 300), core.short(model, 300)))
+    # iterations that overlap in time are independent, as for a list: zip(x, x), a nested loop, two iterators advanced in turn
+    if n <= 6:
+        try:
+            pairs = [(a_, b_) for a_, b_ in zip(x, x)]
+            nested = sum(1 for _a in x for _b in x)
+            i1, i2 = iter(x), iter(x)
+            turn = []
+            for _ in range(n):
+                turn.append(next(i1))
+                turn.append(next(i2))
+            inner = []
+            for _a in x:
+                inner.append(len(list(x)))
+            ok = len(pairs) == n and all(eq_arr(c, a_.data[0], m, readout=True) and eq_arr(c, b_.data[0], m, readout=True) for (a_, b_), m in zip(pairs, model)) \
+                and nested == n * n and len(turn) == 2 * n and all(eq_arr(c, turn[2 * j].data[0], model[j], readout=True) and eq_arr(c, turn[2 * j + 1].data[0], model[j], readout=True) for j in range(n)) \
+                and inner == [n] * n
+            detail = 'zip pairs %d, nested count %d (expected %d), alternating iterators %d items, list(x) inside a loop over x: %s' % (len(pairs), nested, n * n, len(turn), inner)
+        except Exception as e:
+            ok, detail = False, repr(e)
+        ctx.judge('readout', ok, dict(sig, kind='overlapping_iterations_interfere', op='iter'), lambda: '%s: %s' % (what(), detail))
 
 
 # ----------------------------------------------------------------------------- operations
@@ -139,7 +159,7 @@ def OPS():
     return ['append', 'append_multi', 'append_other', 'extend_multi', 'extend_single', 'extend_other', 'insert0', 'insert_neg',
             'insert_far', 'insert_other', 'set_other', 'pop', 'pop0', 'pop_far', 'del0', 'del_neg', 'del_far', 'set0', 'set_neg', 'set_far', 'set_multi',
             'reverse', 'clear', 'copy', 'append_empty', 'insert_empty', 'set_empty', 'extend_empty', 'insert_multi',
-            'setslice_single', 'setslice_multi', 'setslice_step']
+            'setslice_single', 'setslice_multi', 'setslice_step', 'setslice_rev', 'setslice_neg2', 'setslice_negstop']
 
 
 MUTATORS = set(OPS()) - {'copy'}
@@ -280,6 +300,31 @@ def apply_op(ctx, c, x, model, name, pool, k, sig, what):
     elif name == 'insert_multi':
         y = from_list(c, [a, b])
         expect_arg_error(lambda: x.insert(0, y), 'insert(multi-valued)')
+    elif name in ('setslice_rev', 'setslice_neg2', 'setslice_negstop'):
+        # extended slices with a negative step: a list assigns when the lengths agree
+        sl = {'setslice_rev': slice(None, None, -1), 'setslice_neg2': slice(None, None, -2), 'setslice_negstop': slice(2, -9, -1)}[name]
+        nsel = len(range(*sl.indices(len(model))))
+        y = from_list(c, [pool[(k + j) % len(pool)] for j in range(nsel)])
+        vals = [np.array(v, copy=True) for v in y.data]
+        m2 = list(model)
+        m2[sl] = vals
+        try:
+            x[sl] = y
+            gerr = None
+        except Exception as e:
+            gerr = e
+        unchanged = len(x.data) == len(before) and all(isinstance(v, np.ndarray) and eq_arr(c, v, m) for v, m in zip(x.data, before))
+        aslist = len(x.data) == len(m2) and all(isinstance(v, np.ndarray) and eq_arr(c, v, m) for v, m in zip(x.data, m2))
+        ok = (gerr is None and aslist) or (gerr is not None and unchanged and not isinstance(gerr, ValueError))
+        # (a clean refusal of slice assignment as such is tolerated -- the docstring says slices are not supported -- but the
+        #  list's own "wrong size" ValueError for a slice of the RIGHT size is not a refusal, it is a wrong answer)
+        ctx.judge('errors', ok, dict(sig, kind='extended_slice_assignment_wrong', op=name, got=type(gerr).__name__ if gerr else 'accepted'),
+                  lambda: '%s: x[%s] = <%d value(s)> on %d elements: a list assigns; got %s, data now %s' % (
+                      what(), sl, nsel, len(before), repr(gerr) if gerr else 'no exception', core.short(x.data, 300)))
+        if gerr is None and aslist:
+            model[:] = m2
+        elif not unchanged:
+            model[:] = [np.array(v, copy=True) if isinstance(v, np.ndarray) else v for v in x.data]
     elif name in ('setslice_single', 'setslice_multi', 'setslice_step'):
         # x[a:b] = Y: either what a list does with Y's values, or a refusal that leaves the object as it was
         # (the docstring says slices are not supported); never a half-way state
